@@ -580,6 +580,24 @@ func init() {
 	}
 }
 
+// net.ParseCIDR of a concrete string: the real parser (it goes through net/netip, whose interned
+// zone handles the engine does not model); the result is an ordinary *net.IPNet value, so
+// (*IPNet).Contains runs from SSA - also on symbolic addresses.
+func init() {
+	intercepts["net.ParseCIDR"] = func(e *Engine, fr *frame, a []Value) Value {
+		s := a[0].(Str)
+		if !s.IsConc() {
+			panic(e.unsupported("net.ParseCIDR of a symbolic string"))
+		}
+		ip, nip, mask, err := netParseCIDR(s.S)
+		if err != nil {
+			return Tuple{Slice{}, Ptr{}, e.mkError(err.Error())}
+		}
+		obj := &Backing{E: []Value{e.mkConcByteSlice(nip), e.mkConcByteSlice(mask)}}
+		return Tuple{e.mkConcByteSlice(ip), Ptr{B: &Backing{E: []Value{obj}}}, Iface{}}
+	}
+}
+
 // ---- compress/gzip as an invertible pair ---------------------------------------------------
 //
 // Writer: buffers everything; Close emits one member  1f 8b | len32 | data  to the
